@@ -281,7 +281,7 @@ Proof.
   apply transact_mirror; [exact Eo|]. cbv beta.
   apply frame_tbind; [auto with frames|]. intros t0 _.
   eapply frame_fr; [|apply frame_fold_tbind].
-  - instantiate (1 := set_base t0 (Some stop)). fr_triv.
+  - instantiate (1 := set_base t0 (Some _)). fr_triv.
   - intros c t1. cbv beta. frame_auto.
   - apply fr_refl.
 Qed.
